@@ -61,6 +61,10 @@ var origDeclName = map[token.Pos]string{}
 
 var renameNotes []string
 
+// vanished: recorded functions ("Recv.Name" or "Name") that exist no more
+// under any name — inlined into their callers, or deleted.
+var vanished = map[string]bool{}
+
 // nm is Name() seen from the recorded tree.
 func nm(x interface{ Name() string }) string {
 	switch y := x.(type) {
@@ -237,6 +241,7 @@ func (w *World) resolveRenames() {
 	origName = map[types.Object]string{}
 	origDeclName = map[token.Pos]string{}
 	renameNotes = nil
+	vanished = map[string]bool{}
 	data, err := os.ReadFile(filepath.Join(w.VerifD, "checker", "anchors.json"))
 	if err != nil {
 		return
@@ -290,6 +295,11 @@ func (w *World) resolveRenames() {
 				}
 			}
 			if pick == nil {
+				if old.Recv != "" {
+					vanished[old.Recv+"."+old.Name] = true
+				} else {
+					vanished[old.Name] = true
+				}
 				continue
 			}
 			taken[fk{pick.Recv, pick.Name}] = true
@@ -415,4 +425,24 @@ func scopeLookup(scope *types.Scope, name string) types.Object {
 		}
 	}
 	return scope.Lookup(name)
+}
+
+// ssaMember finds a package member by its recorded name.
+func ssaMember(sp *ssa.Package, name string) ssa.Member {
+	if m, ok := sp.Members[name]; ok {
+		if o := m.Object(); o == nil || origName[o] == "" {
+			return m
+		}
+	}
+	for _, m := range sp.Members {
+		if o := m.Object(); o != nil && origName[o] == name {
+			return m
+		}
+	}
+	return sp.Members[name]
+}
+
+func ssaFuncNamed(sp *ssa.Package, name string) *ssa.Function {
+	f, _ := ssaMember(sp, name).(*ssa.Function)
+	return f
 }
